@@ -125,6 +125,44 @@ def run(ctx) -> None:
                     fi.loc,
                 )
 
+    # ---- the full-events emitter is the same translation with the mode flag on, and the observer selects it on request
+    RM = ctx.rule("C03/full-mode-wiring", "InotifyFullEmitter.queue_events delegates exactly once to the base translation with its mode parameter (default True); InotifyObserver selects the full emitter iff generate_full_events", floor=2)
+    from ..pse import Cfg, Enumerator
+
+    ff = P.cls("InotifyFullEmitter").methods.get("queue_events") if P.has_cls("InotifyFullEmitter") else None
+    if ff is None:
+        ctx.viol(RM, "InotifyFullEmitter.queue_events", "the full-events emitter no longer overrides queue_events: it behaves like the normal emitter", fi.loc)
+    else:
+        kwo = ff.node.args.kwonlyargs
+        kwd = ff.node.args.kw_defaults
+        pname = kwo[0].arg if kwo else None
+        pdef = kwd[0] if kwd else None
+        okm = pname is not None and isinstance(pdef, ast.Constant) and pdef.value is True
+        for p in Enumerator(Cfg(P)).run(ff, selfcls="InotifyFullEmitter"):
+            calls = [e for e in p.evs if e.kind == "call" and e.extra.get("func") in ("super().queue_events", "InotifyEmitter.queue_events")]
+            if len(calls) != 1:
+                okm = False
+                continue
+            kw = calls[0].extra.get("kwargs", {})
+            base_kw = [a.arg for a in fi.node.args.kwonlyargs]
+            if not base_kw or kw.get(base_kw[0]) != pname:
+                okm = False
+        ctx.check(okm, RM, "InotifyFullEmitter.queue_events", "the full-events emitter does not run the base translation exactly once with full mode on by default: generate_full_events would silently behave like the normal emitter (or emit nothing)", ff.loc)
+    io = P.find_method("InotifyObserver", "__init__")
+    oksel = False
+    if io is not None:
+        for p in Enumerator(Cfg(P)).run(io, selfcls="InotifyObserver"):
+            g = p.conds().get("generate_full_events")
+            sup = [e for e in p.evs if e.kind == "call" and e.extra.get("func") == "super().__init__"]
+            a0 = (sup[0].extra.get("args") or [""])[0] if sup else ""
+            if g is True and a0 != "InotifyFullEmitter":
+                oksel = None
+            if g is False and a0 != "InotifyEmitter":
+                oksel = None
+            if oksel is False and g is not None:
+                oksel = True
+    ctx.check(oksel is True, RM, "InotifyObserver selects the emitter", "InotifyObserver does not select InotifyFullEmitter exactly when generate_full_events is set", io.loc if io else fi.loc)
+
     # ---- synthetic flag ownership
     gen_sites, other_sites, writes = set(), [], []
     for m in P.modules.values():
@@ -212,6 +250,9 @@ VARIANTS = [
     dict(name="B closed event for directories too", expect="fire", rule="C03/emission-contract", edits=[(IN, "            elif not event.is_directory:\n                if event.is_open:", "            elif True:\n                if event.is_open:")]),
     dict(name="B generator marks nothing synthetic", expect="fire", rule="C03/synthetic-only-from-generators", edits=[(EV, "            yield FileCreatedEvent(full_path, is_synthetic=True)", "            yield FileCreatedEvent(full_path)")]),
     dict(name="B non-root delete_self reported", expect="fire", rule="C03/emission-contract", edits=[(IN, "            elif event.is_delete_self and src_path == self.watch.path:", "            elif event.is_delete_self:")]),
+    dict(name="B full emitter does not delegate", expect="fire", rule="C03/full-mode-wiring", edits=[(IN, "        super().queue_events(timeout, full_events=events)", "        pass")]),
+    dict(name="B full emitter defaults to normal mode", expect="fire", rule="C03/full-mode-wiring", edits=[(IN, "def queue_events(self, timeout: float, *, events: bool = True) -> None:  # type: ignore[override]", "def queue_events(self, timeout: float, *, events: bool = False) -> None:  # type: ignore[override]")]),
+    dict(name="B observer always picks the normal emitter", expect="fire", rule="C03/full-mode-wiring", edits=[(IN, "cls = InotifyFullEmitter if generate_full_events else InotifyEmitter", "cls = InotifyEmitter if generate_full_events else InotifyEmitter")]),
     dict(name="E extract an _emit_with_parent helper", expect="silent", edits=[(IN, "                cls = DirCreatedEvent if event.is_directory else FileCreatedEvent\n                self.queue_event(cls(src_path))\n                self.queue_event(DirModifiedEvent(os.path.dirname(src_path)))\n            elif event.is_delete_self", "                cls = DirCreatedEvent if event.is_directory else FileCreatedEvent\n                self._emit_with_parent(cls, src_path)\n            elif event.is_delete_self"), (IN, "    def _decode_path(self, path: bytes | str) -> bytes | str:", "    def _emit_with_parent(self, cls, path) -> None:\n        self.queue_event(cls(path))\n        self.queue_event(DirModifiedEvent(os.path.dirname(path)))\n\n    def _decode_path(self, path: bytes | str) -> bytes | str:")]),
     dict(name="E reorder independent elif arms", expect="silent", edits=[(IN, "            elif event.is_attrib or event.is_modify:\n                cls = DirModifiedEvent if event.is_directory else FileModifiedEvent\n                self.queue_event(cls(src_path))\n            elif event.is_delete or (event.is_moved_from and not full_events):\n                cls = DirDeletedEvent if event.is_directory else FileDeletedEvent\n                self.queue_event(cls(src_path))\n                self.queue_event(DirModifiedEvent(os.path.dirname(src_path)))", "            elif event.is_delete or (event.is_moved_from and not full_events):\n                cls = DirDeletedEvent if event.is_directory else FileDeletedEvent\n                self.queue_event(cls(src_path))\n                self.queue_event(DirModifiedEvent(os.path.dirname(src_path)))\n            elif event.is_attrib or event.is_modify:\n                cls = DirModifiedEvent if event.is_directory else FileModifiedEvent\n                self.queue_event(cls(src_path))")]),
 ]
